@@ -25,6 +25,18 @@ from ..refeval import RefEval, evaluate, close
 THEOREMS = ["Pt.affEq_iff", "Pt.isNonNeg_iff", "Pt.broadcast_decision_sound",
             "Pt.eval_norm", "Pt.nodup_norm"]
 
+# part (b): shape inference per node kind (PtModel/SymShape.lean, PtProofs/C16Shape.lean)
+SHAPE_THEOREMS = [
+    "Pt.symshape_eval_eq_concr", "Pt.symshape_broadcast_sound", "Pt.symshape_where_sound",
+    "Pt.symshape_broadcast_axis_accepts_iff", "Pt.symshape_broadcast_pair_accepts_iff",
+    "Pt.symshape_broadcast_axis_complete", "Pt.symshape_transpose_sound", "Pt.symshape_roll_sound",
+    "Pt.symshape_stack_sound", "Pt.symshape_stack_complete", "Pt.symshape_concat_sound",
+    "Pt.symshape_concat_incomplete", "Pt.symshape_reduce_sound", "Pt.symshape_full_sound",
+    "Pt.symshape_expand_dims_sound", "Pt.symshape_broadcast_to_sound", "Pt.symshape_pad_sound",
+    "Pt.symshape_einsum_sound", "Pt.symshape_einsum_step_compatible", "Pt.slice_len_sym_sound",
+    "Pt.slice_len_sym_refusals", "Pt.symshape_int_index_iff", "Pt.symshape_index_sound",
+]
+
 PARAMS = ["n", "m", "k"]
 
 
@@ -1002,10 +1014,19 @@ def run(ctx: common.Ctx):
         "loopy C target + gcc execute the generated kernel (OpenCL absent); executed, not verified",
     ]
     ctx.lean_obligations("PtProofs.C16", THEOREMS)
+    ctx.lean_obligations("PtProofs.C16Shape", SHAPE_THEOREMS)
     batch_affine(ctx)
     batch_consumers(ctx)
-    progs = batch_symbolic(ctx)
-    batch_kernels(ctx, progs)
+    batch_symshape(ctx)
+    try:
+        progs = batch_symbolic(ctx)
+        batch_kernels(ctx, progs)
+    except Exception as e:   # noqa: BLE001
+        # a wrong inferred shape makes the reference evaluation of a whole program fail (inconsistent operand
+        # shapes): keep the violations recorded so far and report the abort instead of crashing
+        import traceback
+        ctx.broken.append(f"harness-aborted:symbolic-programs:{type(e).__name__}: {str(e)[:120]}")
+        ctx.coverage["aborted_traceback"] = traceback.format_exc()[-2000:]
     ctx.broken = sorted(set(ctx.broken))[:50]
 
 
